@@ -72,9 +72,28 @@ pub struct PersistInner {
 	pub keep_update_bytes: bool,
 }
 
+/// A second `Persist` implementation that sees every call as well (C19b: the real
+/// `MonitorUpdatingPersister` over a fault-injecting store), plus a probe returning the length of that
+/// store's operation log after the call.
+pub struct Mirror {
+	pub persist: Box<dyn Persist<TestChannelSigner> + Send + Sync>,
+	pub log_len: Box<dyn Fn() -> usize + Send + Sync>,
+}
+
+#[derive(Clone, Debug)]
+pub struct MirrorRec {
+	pub monitor_update_id: u64,
+	pub update_id: Option<u64>,
+	pub completed: bool,
+	pub log_len_after: usize,
+	pub seq: u64,
+}
+
 pub struct McPersist {
 	pub inner: Mutex<PersistInner>,
 	pub logger: Arc<McLogger>,
+	pub mirror: Mutex<Option<Mirror>>,
+	pub mirror_log: Mutex<Vec<MirrorRec>>,
 }
 
 /// When set, every persister keeps all snapshots and the serialised updates (C12 / C06 need them).
@@ -90,10 +109,33 @@ impl McPersist {
 			inner.keep_history = true;
 			inner.keep_update_bytes = true;
 		}
-		McPersist { inner: Mutex::new(inner), logger }
+		McPersist { inner: Mutex::new(inner), logger, mirror: Mutex::new(None), mirror_log: Mutex::new(Vec::new()) }
 	}
 
 	fn record(
+		&self, new_channel: bool, update: Option<&ChannelMonitorUpdate>, m: &ChannelMonitor<TestChannelSigner>,
+	) -> ChannelMonitorUpdateStatus {
+		let own = self.record_inner(new_channel, update, m);
+		let g = self.mirror.lock().unwrap();
+		if let Some(mir) = g.as_ref() {
+			let name = m.persistence_key();
+			let st = if new_channel { mir.persist.persist_new_channel(name, m) } else { mir.persist.update_persisted_channel(name, update, m) };
+			let completed = matches!(st, ChannelMonitorUpdateStatus::Completed);
+			self.mirror_log.lock().unwrap().push(MirrorRec {
+				monitor_update_id: m.get_latest_update_id(),
+				update_id: update.map(|u| u.update_id),
+				completed,
+				log_len_after: (mir.log_len)(),
+				seq: crate::base::next_seq(),
+			});
+			if let ChannelMonitorUpdateStatus::UnrecoverableError = st {
+				return st;
+			}
+		}
+		own
+	}
+
+	fn record_inner(
 		&self, new_channel: bool, update: Option<&ChannelMonitorUpdate>, m: &ChannelMonitor<TestChannelSigner>,
 	) -> ChannelMonitorUpdateStatus {
 		let chan = m.channel_id();
